@@ -492,12 +492,22 @@ class Driver(rpc_base.RPCClient):
         self.topic = conf.topic
 
     def async_call(self, ctx, method, target=None, fanout=False, **kwargs):
+        icpt = getattr(W, 'rpc_intercept', None)
+        if icpt is not None:
+            handled, reply = icpt(self.topic, ctx, method, kwargs)
+            if handled:
+                return reply
         a = cur_act()
         if a is not None:
             a.dirty = True
         W.msgs.append(Msg(self.topic, ctx, method, kwargs))
 
     def sync_call(self, ctx, method, target=None, **kwargs):
+        icpt = getattr(W, 'rpc_intercept', None)
+        if icpt is not None:
+            handled, reply = icpt(self.topic, ctx, method, kwargs)
+            if handled:
+                return reply
         a = cur_act()
         m = Msg(self.topic, ctx, method, kwargs, waiter=a)
         W.msgs.append(m)
@@ -878,6 +888,9 @@ TABLES = {
         'id', 'func_name', 'func_args', 'key', 'execute_at', 'captured_at',
         'run_after'],
     'named_locks': ['id', 'name'],
+    'cron_triggers_v2': ['id', 'name', 'project_id', 'pattern',
+                         'first_execution_time', 'next_execution_time',
+                         'remaining_executions', 'workflow_name', 'scope'],
 }
 TIME_COLS = {'execution_time', 'execute_at', 'captured_at', 'last_heartbeat',
              'created_at', 'updated_at', 'started_at', 'finished_at',
@@ -922,7 +935,8 @@ def id_labels(dump):
         k = (r['task_execution_id'], idx)
         cnt[k] = cnt.get(k, 0) + 1
         idmap[r['id']] = 'A[%s/%s#%d]' % (r['task_execution_id'], idx, cnt[k])
-    for t in ('delayed_calls_v2', 'scheduled_jobs_v2', 'named_locks'):
+    for t in ('delayed_calls_v2', 'scheduled_jobs_v2', 'named_locks',
+              'cron_triggers_v2'):
         for r in dump.get(t, []):
             idmap[r['id']] = 'J'
     return idmap
